@@ -54,6 +54,7 @@ type Spec struct {
 	Payload    []byte // the body with the content coding removed (== Body when Coding is not decodable)
 	Coding     string // Content-Encoding value as written ("" = header absent)
 	CodingKind string // "", "gzip", "deflate" (raw RFC 1951), "zlib" (RFC 1950 under the name deflate), "unknown"
+	Members    int    // gzip members the body consists of (0 = not compressed)
 	Chunks     []int  // chunk sizes, sum == len(Body)
 	ChunkExt   bool
 	Trailers   []Field
@@ -285,6 +286,9 @@ func (s *Spec) FramingClass() string {
 func (s *Spec) CodingClass() string {
 	if s.CodingKind == "" {
 		return "none"
+	}
+	if s.Members > 1 {
+		return s.CodingKind + "-multimember"
 	}
 	return s.CodingKind
 }
